@@ -61,7 +61,13 @@ def run(ctx):
         c = rng.randint(1, L)
         nd = rng.choice([0, 0, 0, 1, 2])
         kind = rng.choice(["alpha", "dyadic", "gauss"])
-        if nd:
+        long_case = it % 25 == 7
+        if long_case:
+            # scale-up slice: long structured series (repeated occurrences, constant runs), longer queries
+            r, c, nd = rng.randint(2, 12), rng.randint(30, 90), 0
+            q, s = gen.structured_series(rng, r), gen.structured_series(rng, c)
+            ctx.count("long_series_cases")
+        elif nd:
             q, s = gen.series_nd(rng, r, nd, kind), gen.series_nd(rng, c, nd, kind)
         else:
             q, s = gen.series(rng, r, kind), gen.series(rng, c, kind)
@@ -84,7 +90,13 @@ def run(ctx):
         elif layout == "reversed":
             sa_ = np.array(list(reversed(s)), dtype=float)[::-1]
         wit = dict(query=q, series=s, penalty=penalty, ndim=nd, layout=layout)
-        ref = brute_matching(q, s, penalty, nd)
+        if long_case:
+            # O(len(q) * len(s)) reference: one DP whose start is free anywhere in the series
+            inn_ = oracle.INNER[("squared euclidean", False)]
+            bm_ = oracle.ref_matrix(q, s, None, inn_.ival(penalty) if penalty else 0.0, (0, 0, len(s), len(s)), inf, inn_.dist)
+            ref = [(inn_.result(v_) / len(q) if v_ != inf else inf) for v_ in bm_[len(q) - 1]]
+        else:
+            ref = brute_matching(q, s, penalty, nd)
         got = {}
         for use_c in (False, True):
             ctx.current("align use_c=%s %r" % (use_c, wit))
